@@ -468,23 +468,11 @@ Proof.
   pose proof (lh_loop_out parse_q fo header header 0%nat lh_init). cbn [lh_init lh_out length] in *. lia.
 Qed.
 
-(** ** the decimal stand-in satisfies the hypothesis of [list_header_wf] *)
-Lemma dec_scan_chars s : forall sd m k dg r c,
-  dec_scan s sd m k dg = Some r -> In c s -> is_digit c = true \/ c = c_dot.
-Proof.
-  induction s as [|d s IH]; intros sd m k dg r c H Hin; [destruct Hin|].
-  cbn [dec_scan] in H. destruct (is_digit d) eqn:Hd.
-  - destruct Hin as [<-|Hin]; [left; assumption|]. eapply IH; eassumption.
-  - destruct ((d =? c_dot) && negb sd) eqn:Hdot; [|discriminate].
-    destruct Hin as [<-|Hin]; [right; apply andb_true_iff in Hdot as [Hdot _]; apply N.eqb_eq in Hdot; assumption|].
-    eapply IH; eassumption.
-Qed.
+(** ** the stand-in for [f32::from_str] satisfies the hypothesis of [list_header_wf] *)
 Lemma parse_q_dec_numberish s c : parse_q_dec s <> None -> In c s -> numberish c = true.
 Proof.
-  unfold parse_q_dec. destruct (dec_scan s false 0 0 false) as [[m k]|] eqn:Hs; [|congruence].
-  intros _ Hin. destruct (dec_scan_chars _ _ _ _ _ _ _ Hs Hin) as [H| ->].
-  - unfold numberish. rewrite H. reflexivity.
-  - reflexivity.
+  unfold parse_q_dec. destruct (forallb numberish s) eqn:Hs; [|congruence].
+  intros _ Hin. rewrite forallb_forall in Hs. apply Hs. assumption.
 Qed.
 
 (** ** every value is a piece of the header (safety form for arbitrary text) *)
